@@ -88,6 +88,8 @@ def run_shard(rec, tier, seed, shard, nshards):
         if rng.random() < 0.12:
             # ---- screens constructed BY the library from other screens: Screen.combine / Screen.concat
             derived_screens(rec, rng, Screen, s, kw)
+            if s.size >= 3:
+                parts_of_one_parent(rec, rng, Screen, s, kw)
 
         if rng.random() < 0.25:
             # ---- the caller refills its buffers: same array OBJECTS, changed content, constructed again
@@ -265,6 +267,46 @@ def derived_screens(rec, rng, Screen, s, kw):
     rec.case(abstract(kwd, d) + (how,), nontrivial=nontrivial(kwd))
     rec.count("derived_screens_checked")
     rec.check(str(d.control_treatment_name) == str(kw["control_treatment_name"]), "C01/derived/control-name-lost", lambda: "Screen.%s of screens with control name %r has control name %r" % (how, kw["control_treatment_name"], d.control_treatment_name), witness(kwd))
+    oracle(rec, d, kwd)
+
+
+def parts_of_one_parent(rec, rng, Screen, s, kw):
+    """What the hold-out / mask / reveal helpers hand out: screens cut from one parent and built with the PARENT's
+    mappings. The union of some of them is a new screen that nobody gave a mapping to: judged against its own rows."""
+    n = s.size
+    group = rng.integers(0, 3, size=n)
+    group[rng.permutation(n)[:3]] = [0, 1, 2]
+    tm = tuple(np.array(a, copy=True) for a in s.treatment_mapping)
+    sm = tuple(np.array(a, copy=True) for a in s.sample_mapping)
+    parts, parts_kw = [], []
+    for g in range(3):
+        sel = group == g
+        kwg = dict(
+            treatment_names=kw["treatment_names"][sel],
+            treatment_doses=kw["treatment_doses"][sel],
+            sample_names=kw["sample_names"][sel],
+            plate_names=np.char.add(kw["plate_names"][sel].astype(str), "#%d" % g),
+            control_treatment_name=kw["control_treatment_name"],
+        )
+        try:
+            parts.append(Screen(treatment_mapping=tm, sample_mapping=sm, **kwg))
+        except Exception as e:
+            rec.did_not_return("construct-part-of-parent", e)
+            return
+        parts_kw.append(kwg)
+    which = [[0, 1], [1, 2], [2, 0], [0, 1, 2]][int(rng.integers(4))]
+    how = "combine" if len(which) == 2 and rng.random() < 0.6 else "concat"
+    try:
+        d = parts[which[0]].combine(parts[which[1]]) if how == "combine" else Screen.concat([parts[i] for i in which])
+    except Exception as e:
+        rec.case(None, nontrivial=False)
+        rec.violation("C01/derived/%s-raises" % how, "Screen.%s of parts of one parent raised %r" % (how, e), witness(kw))
+        return
+    kwd = {k: np.concatenate([parts_kw[i][k] for i in which]) for k in ("treatment_names", "treatment_doses", "sample_names", "plate_names")}
+    kwd["control_treatment_name"] = kw["control_treatment_name"]
+    rec.case(abstract(kwd, d) + (how, "parts"), nontrivial=nontrivial(kwd))
+    rec.count("derived_screens_checked")
+    rec.count("unions_of_parts_of_one_parent")
     oracle(rec, d, kwd)
 
 
